@@ -68,7 +68,10 @@ func c27Body(p c27Params) func() {
 				}
 			}
 		}()
-		params := &opcua.SubscriptionParameters{Interval: 100 * time.Millisecond, MaxKeepAliveCount: 10, LifetimeCount: 1000}
+		// Subscribe fills defaults into the parameters it is given: every call gets its own copy
+		newParams := func() *opcua.SubscriptionParameters {
+			return &opcua.SubscriptionParameters{Interval: 100 * time.Millisecond, MaxKeepAliveCount: 10, LifetimeCount: 1000}
+		}
 		vrt.Settle()
 		n := vnet.Net()
 		base := 0
@@ -98,7 +101,7 @@ func c27Body(p c27Params) func() {
 		}
 		if strings.Contains(p.Script, "A") { // subscribe, cancel, cancel again
 			run(func() {
-				s, err := c.Subscribe(ctx, params, notifs)
+				s, err := c.Subscribe(ctx, newParams(), notifs)
 				note("A.subscribe", err)
 				if err != nil {
 					return
@@ -109,7 +112,7 @@ func c27Body(p c27Params) func() {
 		}
 		if strings.Contains(p.Script, "B") { // subscribe, forget, cancel
 			run(func() {
-				s, err := c.Subscribe(ctx, params, notifs)
+				s, err := c.Subscribe(ctx, newParams(), notifs)
 				note("B.subscribe", err)
 				if err != nil {
 					return
@@ -123,7 +126,7 @@ func c27Body(p c27Params) func() {
 			run(func() {
 				var subs []*opcua.Subscription
 				for i := 0; i < 3; i++ {
-					s, err := c.Subscribe(ctx, params, notifs)
+					s, err := c.Subscribe(ctx, newParams(), notifs)
 					note(fmt.Sprintf("C.subscribe%d", i), err)
 					if err == nil {
 						subs = append(subs, s)
@@ -143,7 +146,7 @@ func c27Body(p c27Params) func() {
 		for attempt := 0; attempt < 3 && !obs.notified; attempt++ {
 			time.Sleep(10 * time.Second) // any reconnect has finished by now
 			want := int32(4711 + attempt)
-			s, err := c.Subscribe(ctx, params, notifs)
+			s, err := c.Subscribe(ctx, newParams(), notifs)
 			if err != nil {
 				obs.finalErr = "subscribe: " + err.Error()
 				continue
